@@ -40,7 +40,7 @@ var valueFamilies = []valueFamily{
 	{name: "font-long", props: []string{"font"}, alpha: []string{"normal", "bold", "italic", "400", "700", "small-caps", "condensed", "12px", "0", "medium", "/", "1.5", "20px", "\"A B\"", "a", "serif", ","}, qLen: 0, tLen: 5},
 	{name: "font-family", props: []string{"font-family"}, alpha: []string{"a", "B", "\"a\"", "'a b'", "\"A B\"", "\"a  b\"", "serif", "\"serif\"", "\"inherit\"", "\"1a\"", "\"a-b c\"", ",", "\"\"", "'it\\'s'", "-x", "\"-x\"", "\" a\"", "\"monospace\"", "Sans-Serif"}, qLen: 3, tLen: 5},
 	{name: "font-weight", props: []string{"font-weight"}, alpha: []string{"normal", "bold", "bolder", "lighter", "400", "700", "100", "1", "1000", "400.0", "4e2", "initial", "inherit", "NORMAL", "Bold", "550.5"}, qLen: 1, tLen: 1},
-	{name: "flex", props: []string{"flex", "-webkit-flex"}, alpha: []string{"0", "1", "2", "0px", "0%", "10px", "10%", "auto", "none", "initial", "content", "0.0", "1.0", "0em", "calc(1px)", ".5", "Auto"}, qLen: 3, tLen: 3},
+	{name: "flex", props: []string{"flex", "-webkit-flex"}, alpha: []string{"0", "1", "2", "0px", "0%", "10px", "10%", "auto", "none", "initial", "content", "0.0", "1.0", "0em", "calc(1px)", ".5", "Auto", "10", "12", "1.5", "100", "01"}, qLen: 3, tLen: 3},
 	{name: "flex-longhands", props: []string{"flex-basis", "flex-grow", "flex-shrink", "order"}, alpha: []string{"0", "1", "2", "0px", "0%", "10px", "10%", "auto", "initial", "content", "0.0em", "inherit", "calc(0px)", "1.0", ".5", "-1", "1e0", "Initial", "unset"}, qLen: 1, tLen: 1},
 	{name: "integer-properties", props: []string{"order", "z-index", "column-count", "orphans", "widows", "grid-row-start"}, alpha: []string{"0", "1", "2", "10", "100", "1000", "10000", "1000000", "-1000", "+1000", "+1", "01", "auto", "inherit", "initial", "1e3", "1.0", "Auto"}, qLen: 1, tLen: 1},
 	{name: "box-shadow", props: []string{"box-shadow"}, alpha: []string{"none", "initial", "inset", "0", "0px", "1px", "2px", "0em", "-1px", "red", "#000", "rgba(0,0,0,.5)", "currentcolor", ",", "calc(1px)", "0.0px"}, qLen: 4, tLen: 5},
